@@ -289,78 +289,84 @@ func genProbe(rt *rapid.T) Op {
 
 func TestReuseHistory(t *testing.T) {
 	hx.Rule("reuse_history", "histories (<= 12 steps) on one Tokenizer and one Parser: tokenize valid/invalid/comment-heavy input, tokenize cancelled at poll k, parse through plain/context/positions/recovery entry points and cancelled at poll k (valid, invalid, failing deep inside nesting, over the depth limit), apply strict mode / dialect, Reset, Release, Put->Get through the pools (goroutine pinned, GC off); after the history a probe (incl. an input exactly as deep as a fresh parser accepts, a dialect-sensitive LIMIT, stray semicolons) must give identical tokens, comments, dialect, tree and error text to fresh instances configured as the current holder did; non-trivial = history has a failing or cancelled call, or an option change followed by Reset/Put-Get; distinct = op kinds + input classes")
-	histCheck.Rapid(t, hx.N(20000, 200000), func(rt *rapid.T) History {
-		n := rapid.IntRange(1, 12).Draw(rt, "nops")
-		var h History
-		var kinds []string
-		failing, optThenReset := false, false
-		opt := false
-		for i := 0; i < n; i++ {
-			var op Op
-			switch rapid.IntRange(0, 15).Draw(rt, "opkind") {
-			case 0, 1:
-				s, cl := genSQL(rt, "toksql")
-				op = Op{Kind: "tokenize", SQL: s}
-				kinds = append(kinds, "tok_"+cl)
-			case 2:
-				s, cl := genSQL(rt, "toksql")
-				op = Op{Kind: "tokenize_cancelled", SQL: s + strings.Repeat(" + 1", 150), K: rapid.IntRange(0, 3).Draw(rt, "k")}
-				kinds = append(kinds, "tokc_"+cl)
-				failing = true
-			case 3, 4, 5, 6, 7:
-				s, cl := genSQL(rt, "parsesql")
-				e := rapid.SampledFrom([]string{"plain", "ctx", "pos", "recovery", "cancelled"}).Draw(rt, "entry")
-				op = Op{Kind: "parse", SQL: s, Entry: e, K: rapid.IntRange(0, 12).Draw(rt, "k")}
-				kinds = append(kinds, "parse_"+e+"_"+cl)
-				if cl != "valid" || e == "cancelled" {
-					failing = true
-				}
-			case 8:
-				op = Op{Kind: "strict"}
-				opt = true
-				kinds = append(kinds, "strict")
-			case 9:
-				op = Op{Kind: "dialect", Arg: rapid.SampledFrom(dialects).Draw(rt, "dialect")}
-				opt = true
-				kinds = append(kinds, "dialect")
-			case 10:
-				op = Op{Kind: "tkz_dialect", Arg: rapid.SampledFrom(dialects).Draw(rt, "tdialect")}
-				opt = true
-				kinds = append(kinds, "tkz_dialect")
-			case 11:
-				op = Op{Kind: "reset"}
-				optThenReset = optThenReset || opt
-				kinds = append(kinds, "reset")
-			case 12:
-				op = Op{Kind: "release"}
-				kinds = append(kinds, "release")
-			case 13:
-				op = Op{Kind: "pool_parser"}
-				optThenReset = optThenReset || opt
-				kinds = append(kinds, "pool_parser")
-			case 14:
-				op = Op{Kind: "pool_tokenizer"}
-				optThenReset = optThenReset || opt
-				kinds = append(kinds, "pool_tokenizer")
-			default:
-				op = Op{Kind: "tkz_reset"}
-				kinds = append(kinds, "tkz_reset")
-			}
-			h.Ops = append(h.Ops, op)
-		}
-		h.Ops = append(h.Ops, genProbe(rt))
-		if rapid.Bool().Draw(rt, "secondprobe") {
-			h.Ops = append(h.Ops, genProbe(rt))
-		}
-		var cl []string
-		if failing {
-			cl = append(cl, "has_failing_or_cancelled")
-		}
-		if optThenReset {
-			cl = append(cl, "option_then_reset_or_pool")
-		}
-		hx.Case("reuse_history", failing || optThenReset, strings.Join(kinds, ","), cl...)
-		hx.Sample("reuse_history", h)
-		return h
-	})
+	histCheck.Rapid(t, hx.N(20000, 200000), genReuseHistory)
 }
+
+// genReuseHistory is the case generator of histCheck (shared by the rapid run and the native fuzz target).
+func genReuseHistory(rt *rapid.T) History {
+	n := rapid.IntRange(1, 12).Draw(rt, "nops")
+	var h History
+	var kinds []string
+	failing, optThenReset := false, false
+	opt := false
+	for i := 0; i < n; i++ {
+		var op Op
+		switch rapid.IntRange(0, 15).Draw(rt, "opkind") {
+		case 0, 1:
+			s, cl := genSQL(rt, "toksql")
+			op = Op{Kind: "tokenize", SQL: s}
+			kinds = append(kinds, "tok_"+cl)
+		case 2:
+			s, cl := genSQL(rt, "toksql")
+			op = Op{Kind: "tokenize_cancelled", SQL: s + strings.Repeat(" + 1", 150), K: rapid.IntRange(0, 3).Draw(rt, "k")}
+			kinds = append(kinds, "tokc_"+cl)
+			failing = true
+		case 3, 4, 5, 6, 7:
+			s, cl := genSQL(rt, "parsesql")
+			e := rapid.SampledFrom([]string{"plain", "ctx", "pos", "recovery", "cancelled"}).Draw(rt, "entry")
+			op = Op{Kind: "parse", SQL: s, Entry: e, K: rapid.IntRange(0, 12).Draw(rt, "k")}
+			kinds = append(kinds, "parse_"+e+"_"+cl)
+			if cl != "valid" || e == "cancelled" {
+				failing = true
+			}
+		case 8:
+			op = Op{Kind: "strict"}
+			opt = true
+			kinds = append(kinds, "strict")
+		case 9:
+			op = Op{Kind: "dialect", Arg: rapid.SampledFrom(dialects).Draw(rt, "dialect")}
+			opt = true
+			kinds = append(kinds, "dialect")
+		case 10:
+			op = Op{Kind: "tkz_dialect", Arg: rapid.SampledFrom(dialects).Draw(rt, "tdialect")}
+			opt = true
+			kinds = append(kinds, "tkz_dialect")
+		case 11:
+			op = Op{Kind: "reset"}
+			optThenReset = optThenReset || opt
+			kinds = append(kinds, "reset")
+		case 12:
+			op = Op{Kind: "release"}
+			kinds = append(kinds, "release")
+		case 13:
+			op = Op{Kind: "pool_parser"}
+			optThenReset = optThenReset || opt
+			kinds = append(kinds, "pool_parser")
+		case 14:
+			op = Op{Kind: "pool_tokenizer"}
+			optThenReset = optThenReset || opt
+			kinds = append(kinds, "pool_tokenizer")
+		default:
+			op = Op{Kind: "tkz_reset"}
+			kinds = append(kinds, "tkz_reset")
+		}
+		h.Ops = append(h.Ops, op)
+	}
+	h.Ops = append(h.Ops, genProbe(rt))
+	if rapid.Bool().Draw(rt, "secondprobe") {
+		h.Ops = append(h.Ops, genProbe(rt))
+	}
+	var cl []string
+	if failing {
+		cl = append(cl, "has_failing_or_cancelled")
+	}
+	if optThenReset {
+		cl = append(cl, "option_then_reset_or_pool")
+	}
+	hx.Case("reuse_history", failing || optThenReset, strings.Join(kinds, ","), cl...)
+	hx.Sample("reuse_history", h)
+	return h
+}
+
+// FuzzReuseHistory: coverage-guided search over the same generator (thorough tier).
+func FuzzReuseHistory(f *testing.F) { histCheck.Fuzz(f, genReuseHistory) }
